@@ -60,6 +60,7 @@ fn main() {
     util::install_panic_hook();
     let t0 = std::time::Instant::now();
     let report: Report = match prop.as_str() {
+        "C06" => mon::c06::run(&p),
         "C11" => mon::c11::run(&p),
         _ => {
             eprintln!("unknown property {}", prop);
